@@ -209,6 +209,10 @@ func (i *interpreter) truth(v value) bool {
 // concInt forces an integer to a concrete value on this path (forking over feasible values).
 func (i *interpreter) concInt(v value, what string) int64 {
 	if s, ok := v.(sym); ok {
+		if g := i.px.sched.cur; g != nil && g.top != nil {
+			site, _ := i.where(g.top)
+			what += " at " + site
+		}
 		u := i.px.concretize(s.t, i.px.eng.cfg.ConcretizeLimit, what)
 		if kindSigned(s.k) {
 			return signExt(u, kindWidth(s.k))
